@@ -23,6 +23,9 @@ for l in log.splitlines():
     if m and cur in caught: caught[cur].append(m.group(1))
 prop=json.load(open('/verif/seeded/%s/meta.json'%id)).get('property')
 v={"id":id,"property":prop,"caught_by":caught,"caught":bool(caught),"caught_by_own_property_check":prop in caught}
+if 'PATCH-DOES-NOT-APPLY' in log:
+    v={"id":id,"property":prop,"applies":False,"note":"patch no longer applies to /repo HEAD (see meta.json)"}
+    json.dump(v,open('/verif/seeded/%s/verdict.json'%id,'w'),indent=1); print(id,'DOES-NOT-APPLY'); sys.exit(0)
 json.dump(v,open('/verif/seeded/%s/verdict.json'%id,'w'),indent=1)
 print(id, 'CAUGHT by '+', '.join('%s[%s]'%(k,'; '.join(x.split('|')[0] for x in vs)) for k,vs in caught.items()) if caught else 'MISSED')
 PY
